@@ -336,7 +336,10 @@ def trace_stage(ctx, name, cmds, module, nontrivial=None, timeout=None, keep=Fal
         for ln, exp in mis:
             ev = json.loads(lines[ln - 1]) if 0 < ln <= len(lines) else {"op": "?"}
             mismatches.append({"file": os.path.basename(f), "line": ln, "event": ev, "expected": exp})
-    res = dict(kind="trace", name=name, module=module, events=events, distinct_nontrivial=len(distinct), ops=ops,
+    demo = binding_demo(module, files[0]) if files and os.path.getsize(files[0]) > 0 else None
+    if demo and demo["missed"]:
+        print(f"WARNING: binding demonstration for stage {name}: falsified events accepted by the specification: {demo['missed']}", file=sys.stderr)
+    res = dict(kind="trace", name=name, module=module, events=events, distinct_nontrivial=len(distinct), ops=ops, binding_demo=demo,
                mismatches=mismatches, samples=samples, wall_s=round(time.time() - t0, 2),
                cmd=" ".join([os.path.basename(cmds[0][0][0])] + cmds[0][0][1:]) + f"  (x{len(cmds)} shards) | TLC {module}", cached=False)
     if not keep:
@@ -346,6 +349,102 @@ def trace_stage(ctx, name, cmds, module, nontrivial=None, timeout=None, keep=Fal
     ctx.stages.append(res)
     _prune_cache()
     return res
+
+
+# --------------------------------------------------------------------------- binding demonstration (anti-vacuity)
+def _corrupt(ev):
+    """Return a copy of the event with one recorded result field falsified (None if this event offers nothing to falsify).
+    The trace specification must then reject exactly that line."""
+    import copy
+    e = copy.deepcopy(ev)
+    op = e.get("op")
+    try:
+        if op == "rt" and e.get("res", {}).get("ok") == 1 and e["res"].get("used", -1) >= 0:
+            e["res"]["used"] += 1
+        elif op == "dec":
+            if e["res"].get("ok") == 1:
+                e["res"]["used"] += 1
+            else:
+                e["res"]["err"] = "End" if e["res"]["err"] != "End" else "BadVarint"
+        elif op == "decb":
+            e["outs"][5] = [0, "End"] if e["outs"][5][0] == 1 else [1, [0, 0], 1]
+        elif op == "fixb":
+            e["outs"][3][2] += 1
+        elif op == "serb" and e["outs"][0]["res"].get("ok") == 1:
+            e["outs"][0]["res"]["bytes"].append(0)
+        elif op == "userflavor" and len(e["calls"]) >= 2:
+            e["calls"].pop(0)
+        elif op in ("cobs_take", "cobs_from"):
+            if e["res"].get("ok") == 1:
+                e["res"]["rem_len"] += 1
+                e["after"] = e["after"] + [0]
+            else:
+                e["res"]["err"] = "End" if e["res"]["err"] != "End" else "BadEncoding"
+        elif op == "crc_deb":
+            e["cases"][0][2] = [0, "BadCrc"]
+        elif op == "feed":
+            e["rem_len"] += 1
+        elif op == "io_ser":
+            e["written"].append(0)
+        elif op == "io_de" and e["msgs"] and e["msgs"][0]["res"].get("ok") == 1:
+            e["msgs"][0]["rd_after"] += 1
+        elif op == "df_pop":
+            e["res"] = (e["res"] + 1) if e["res"] >= 0 else 0
+        elif op == "df_take":
+            e["ok"] = 1 - e["ok"]
+            e.setdefault("off", 0)
+            e.setdefault("len", 0)
+        elif op == "alloc" and e.get("assert") == 1:
+            e["alloc_peak"] = 10 ** 8
+        elif op == "maxsize":
+            e["declared"] -= 1
+        elif op == "schema_tree" and "key_owned" in e:
+            e["key_owned"][0] ^= 1
+        elif op == "conform" and "key_type" in e:
+            e["key_type"][0] ^= 1
+        elif op == "dyn" and e["dyn_bytes"].get("ok") == 1 and e["dyn_json"].get("ok") == 1:
+            e["dyn_bytes"]["bytes"].append(0)
+            e["static_bytes"] = e["static_bytes"]
+        elif op == "dyn_ser" and e["res"].get("ok") == 1 and e.get("reenc", {}).get("ok") == 1:
+            e["reenc"]["bytes"].append(0)
+        elif op == "dyn_de":
+            e["alloc_peak"] = 10 ** 9
+        else:
+            return None
+    except (KeyError, IndexError, TypeError):
+        return None
+    return e if e != ev else None
+
+
+def binding_demo(module, path, timeout=300):
+    """Falsify one result field in one event of every kind in (a prefix of) a recorded trace and require the trace
+    specification to reject exactly those lines. Demonstrates that the specification is bound to what was recorded."""
+    lines = open(path).read().splitlines()[:1500]
+    if not lines:
+        return None
+    done, chosen = {}, {}
+    out = []
+    for i, l in enumerate(lines):
+        ev = json.loads(l)
+        op = ev.get("op")
+        if op not in done or (done[op] < 2 and i - chosen[op] > 20):
+            c = _corrupt(ev)
+            if c is not None:
+                done[op] = done.get(op, 0) + 1
+                chosen[op] = i
+                out.append(json.dumps(c))
+                chosen.setdefault("lines", []).append((i + 1, op))
+                continue
+        out.append(l)
+    cp = path + ".corrupt"
+    open(cp, "w").write("\n".join(out) + "\n")
+    try:
+        mis = {ln for ln, _ in tlc_trace_one(module, cp, timeout)}
+    finally:
+        os.remove(cp)
+    want = chosen.get("lines", [])
+    missed = [(ln, op) for ln, op in want if ln not in mis]
+    return {"falsified_events": len(want), "rejected": len(want) - len(missed), "missed": missed[:10], "ops": sorted({op for _, op in want})}
 
 
 def _prune_cache(maxn=60):
